@@ -329,6 +329,8 @@ class GrammarEval:
             raise _ReturnValue(self.ev(st.value, env, mod, self_cfg) if st.value is not None else None)
         if isinstance(st, ast.For) and not st.orelse:
             seq = self.ev(st.iter, env, mod, self_cfg)
+            if isinstance(seq, dict):
+                seq = list(seq)
             if not isinstance(seq, (tuple, list)):
                 raise Unrecognised(f'loop over `{norm(st.iter)[:50]}` (not a literal sequence) in a grammar definition', st)
             if any(isinstance(x, (ast.Break, ast.Continue)) for b in st.body for x in ast.walk(b)) or \
@@ -407,6 +409,8 @@ class GrammarEval:
                 if e.attr in selfattrs:
                     return selfattrs[e.attr]
                 return Opaque(f'self.{e.attr}')
+            if isinstance(base, dict) and e.attr in ('items', 'keys', 'values'):
+                return ('dictmethod', base, e.attr)
             if isinstance(base, str):
                 return ('strmethod', base, e.attr)
             if isinstance(base, list) and e.attr in ('append', 'extend', 'insert'):
@@ -459,13 +463,24 @@ class GrammarEval:
             if isinstance(t, bool):
                 return self.ev(e.body if t else e.orelse, env, mod, cfg)
             raise Unrecognised(f'conditional expression on `{norm(e.test)}`', e)
-        if isinstance(e, ast.Tuple):
-            return tuple(self.ev(x, env, mod, cfg) for x in e.elts)
-        if isinstance(e, ast.List):
-            return [self.ev(x, env, mod, cfg) for x in e.elts]
+        if isinstance(e, (ast.Tuple, ast.List)):
+            items: List[Any] = []
+            for x in e.elts:
+                if isinstance(x, ast.Starred):
+                    v = self.ev(x.value, env, mod, cfg)
+                    if isinstance(v, dict):
+                        v = list(v)
+                    if not isinstance(v, (tuple, list)):
+                        raise Unrecognised(f'`*{norm(x.value)[:40]}` is not a literal sequence', e)
+                    items.extend(v)
+                else:
+                    items.append(self.ev(x, env, mod, cfg))
+            return tuple(items) if isinstance(e, ast.Tuple) else items
         if isinstance(e, (ast.ListComp, ast.GeneratorExp)) and len(e.generators) == 1 and not e.generators[0].is_async:
             g = e.generators[0]
             seq = self.ev(g.iter, env, mod, cfg)
+            if isinstance(seq, dict):
+                seq = list(seq)
             if not isinstance(seq, (tuple, list)):
                 raise Unrecognised(f'comprehension over `{norm(g.iter)[:50]}` (not a literal sequence)', e)
             out = []
@@ -482,6 +497,11 @@ class GrammarEval:
                     out.append(self.ev(e.elt, env2, mod, cfg))
             return out if isinstance(e, ast.ListComp) else tuple(out)
         if isinstance(e, ast.Dict):
+            if e.keys and all(isinstance(k_, ast.Constant) for k_ in e.keys):
+                try:
+                    return {k_.value: self.ev(v_, env, mod, cfg) for k_, v_ in zip(e.keys, e.values)}
+                except Unrecognised:
+                    return Opaque('dict')
             return Opaque('dict')
         if isinstance(e, ast.JoinedStr):
             return Opaque('fstring')
@@ -630,10 +650,48 @@ class GrammarEval:
             else:
                 raise Unrecognised(f'list operation `{norm(e)[:60]}`', e)
             return None
+        if isinstance(f, tuple) and len(f) == 3 and f[0] == 'dictmethod':
+            _, dv, meth = f
+            return {'items': lambda: [(k_, v_) for k_, v_ in dv.items()], 'keys': lambda: list(dv), 'values': lambda: list(dv.values())}[meth]()
         if isinstance(f, GMethod):
             return self.method(f.recv, f.name, e, env, mod, cfg)
         if isinstance(f, PPRef):
             return self.pp_call(f.path, e, env, mod, cfg)
+        fname_ = norm(e.func).split('.')[-1]
+        if isinstance(f, Opaque) and fname_ in ('map', 'list', 'tuple', 'reduce', 'iter') and not e.keywords and e.args and not any(isinstance(a, ast.Starred) for a in e.args):
+            # a few builtins over concrete sequences of grammar values: map(f, seq), list/tuple(seq), functools.reduce(operator.or_/add/xor, seq)
+            if fname_ in ('list', 'tuple', 'iter') and len(e.args) == 1:
+                v = self.ev(e.args[0], env, mod, cfg)
+                if isinstance(v, dict):
+                    v = list(v)
+                if isinstance(v, (tuple, list)):
+                    return list(v) if fname_ != 'tuple' else tuple(v)
+            if fname_ == 'map' and len(e.args) == 2:
+                seq = self.ev(e.args[1], env, mod, cfg)
+                if isinstance(seq, dict):
+                    seq = list(seq)
+                if isinstance(seq, (tuple, list)):
+                    out_ = []
+                    for item in seq:
+                        env2 = dict(env)
+                        env2['$maparg'] = item
+                        call_ = ast.Call(func=e.args[0], args=[ast.Name(id='$maparg', ctx=ast.Load())], keywords=[])
+                        ast.copy_location(call_, e)
+                        ast.fix_missing_locations(call_)
+                        out_.append(self.ev(call_, env2, mod, cfg))
+                    return out_
+            if fname_ == 'reduce' and len(e.args) in (2, 3):
+                opn = norm(e.args[0]).split('.')[-1]
+                op_ = {'or_': ast.BitOr(), 'add': ast.Add(), 'xor': ast.BitXor(), 'and_': ast.BitAnd(), 'concat': ast.Add()}.get(opn)
+                seq = self.ev(e.args[1], env, mod, cfg)
+                if op_ is not None and isinstance(seq, (tuple, list)) and (seq or len(e.args) == 3):
+                    seq = list(seq)
+                    acc = self.ev(e.args[2], env, mod, cfg) if len(e.args) == 3 else seq.pop(0)
+                    for item in seq:
+                        fake = ast.BinOp(left=e.args[1], op=op_, right=e.args[1])
+                        ast.copy_location(fake, e)
+                        acc = self.binop(acc, op_, item, fake, m)
+                    return acc
         if isinstance(f, Opaque) and f.what in ('copy.copy', 'copy.deepcopy') and len(e.args) >= 1:
             # the standard library's copy() of a parser element is SHALLOW: the copy keeps the very list of parse actions of the original, so
             # add_parse_action on the copy (an in-place extension of that list) also lands on the original.  pyparsing's own .copy() gives the copy
@@ -682,6 +740,13 @@ class GrammarEval:
             if any(isinstance(a, ast.Starred) for a in e.args) or any(k.arg is None for k in e.keywords) or len(e.args) > len(params):
                 raise Unrecognised(f'call `{norm(e)[:60]}` with star-arguments', e)
             bound = {}
+            if f.action.kind == 'method' and isinstance(e.func, ast.Attribute) and params:
+                # a method of the parser called on `self`: the receiver is the first parameter, its attributes stay visible
+                decs = [norm(d) for d in fn.decorator_list]
+                if 'staticmethod' not in decs:
+                    bound[params[0]] = self.ev(e.func.value, env, mod, cfg)
+                    params = params[1:]
+                fenv['$self'] = env.get('$self', {})
             for p_, a in zip(params, e.args):
                 bound[p_] = self.ev(a, env, mod, cfg)
             for k in e.keywords:
